@@ -834,7 +834,7 @@ def jobs(tier: str):
             if thorough:
                 for forms in itertools.product(C3.FORMS, repeat=3):
                     out.append(dict(name=f"framing/{iface}/{method}/{','.join(forms)}/D3", family="framing", iface=iface, method=method,
-                                    forms=list(forms), if_range=None, ctype="text/plain", K=1, D=3, weight=400))
+                                    forms=list(forms), if_range=None, ctype="text/plain", K=1, D=3, weight=400, budget=3600))
     out.append(dict(name="twin/data/wsgi", family="data", iface="wsgi", method="GET", forms=["ab"], if_range=None, ctype="text/plain", K=2, twin=True))
     out.append(dict(name="twin/framing/asgi", family="framing", iface="asgi", method="GET", forms=["ab", "ab"], if_range=None, ctype="text/plain", K=1, D=2, twin=True))
     return out
